@@ -8,8 +8,8 @@ CHECKER = 'coqc props/C02.v (proofs/ParserUbxComplete.v) + correspondence UbxPar
 
 def build(rng, n_streams, res):
     cases = []
-    for _ in range(n_streams):
-        segs, s, kinds = G.rand_segments(rng, rng.choice([1, 2, 3, 6, 10]))
+    for k_ in range(n_streams):
+        segs, s, kinds = G.rand_segments(rng, rng.choice([1, 2, 3, 6, 10]) if k_ % 10 else rng.choice([33, 40, 70, 130]))
         filt = G.rand_filter(rng, segs)
         q_exp, n_exp = G.expected_c02(segs, filt)
         for cname, parts in G.chunkings(rng, s):
